@@ -7,7 +7,16 @@ and `random`), all documents per process; the generated module text, the JSON se
 names must be the ones the Lean model (`parseDoc`) assigns.
 Documents: C02's reference documents plus families aimed at order: several composition keywords on
 one schema whose branches hold distinct equally-titled objects, several undeclared required names,
-many properties / definitions, equally-titled objects across definitions."""
+many properties / definitions, equally-titled objects across definitions; `sibling_keyword_documents`: one
+schema element (root or nested, typed or not) carrying 2-6 of ALL the keywords that hold sub-schemas, each holding
+distinct objects of one title (the order in which the keywords of one element are visited decides the suffixes);
+`annotated_trivial_documents`: schemas with no validation content at any level (`{}`, `true`, compositions of
+those) carrying annotations (`default`, `title`, `description`) - the elements a parser is most likely to share.
+History: "depends only on the input document" also means: not on what the process generated before. Besides every
+process meeting the documents in another order, a sample of documents is generated alone in a fresh process and
+compared with what the long-running processes produced for it; a difference between processes that a fresh process
+per hash seed does not reproduce is reported as history dependence, with the history cut down (bisection over the
+prefix of the process's document order) to the document(s) that have to come first."""
 import json
 import os
 import random
@@ -25,7 +34,9 @@ ID = "C09"
 TIE_MODULES = ["StathamModel.Tie"]
 ASSUMPTIONS = ["PARTIAL: the hash-ordered-iteration inventory is syntactic; process-to-process behaviour is observed on a finite set of hash seeds",
                "address-dependent orders (hashes of classes) vary with process layout rather than with PYTHONHASHSEED; several process instances per seed are run"]
-N_DOCS = {"quick": 120, "thorough": 600}
+N_DOCS = {"quick": 140, "thorough": 700}
+N_FRESH = {"quick": 8, "thorough": 40}          # documents also generated alone, each in a process of its own
+FIELDS = (("python", "generated module text"), ("json", "JSON serialization"), ("names", "class names"))
 SEEDS = {"quick": ["0", "1", "2", "3", "random"], "thorough": [str(i) for i in range(14)] + ["random"] * 2}
 WORKER = os.path.join(os.path.dirname(os.path.dirname(os.path.abspath(__file__))), "c09_worker.py")
 
@@ -94,32 +105,197 @@ def order_documents(rng):
     return docs
 
 
+SUBSCHEMA_KEYWORDS = ["properties", "items", "patternProperties", "propertyNames", "contains", "dependencies", "additionalProperties",
+                      "additionalItems", "anyOf", "oneOf", "allOf", "not", "definitions"]
+WORDS = ["alpha", "beta", "gamma", "delta", "epsilon", "zeta", "eta", "theta", "iota", "kappa", "lambda", "mu"]
+
+
+def sibling_keyword_documents(rng, count, stats):
+    """One schema element carrying several of the keywords that hold sub-schemas; under each of them distinct object schemas
+    with one title, so that the class-name suffixes record the order in which the keywords of that element were visited."""
+    docs = []
+    fam = stats.setdefault("sibling-keywords", {"documents": 0, "keywords": {}, "host": {}, "host-type": {}})
+    for _ in range(count):
+        title = rng.choice(["Item", "Thing", "node", "Shared Part"])
+        where = rng.choice(["root", "root", "property", "definition", "items", "branch"])
+        pool = [k for k in SUBSCHEMA_KEYWORDS if k != "definitions" or where == "root"]      # only the root's definitions are parsed
+        kws = rng.sample(pool, rng.randint(2, 6))
+        if "additionalItems" in kws and "items" not in kws:
+            kws.append("items")                  # additionalItems says something only next to an items list
+        serial = [0]
+
+        def thing():
+            serial[0] += 1
+            return obj(title, {f"{rng.choice(WORDS)}{serial[0]}": {"type": rng.choice(["string", "integer", "boolean"])}})
+
+        host = {}
+        rng.shuffle(kws)                             # the document's own key order varies too
+        for kw in kws:
+            if kw in ("properties", "patternProperties", "dependencies", "definitions"):
+                names = rng.sample(WORDS, rng.randint(1, 2))
+                host[kw] = {("^" + n if kw == "patternProperties" else n): thing() for n in names}
+            elif kw in ("anyOf", "oneOf", "allOf"):
+                host[kw] = [thing() for _ in range(rng.randint(1, 2))]
+            elif kw == "items":
+                host[kw] = [thing() for _ in range(rng.randint(1, 2))] if "additionalItems" in kws or rng.random() < 0.3 else thing()
+            else:
+                host[kw] = thing()
+            fam["keywords"][kw] = fam["keywords"].get(kw, 0) + 1
+        typ = rng.choice(["object", "array", None, ["object", "array"], ["array", "object", "null"]])
+        if typ is not None:
+            host["type"] = typ
+        host["title"] = "Root" if where == "root" else "Host"
+        if where == "root":
+            doc = host
+        elif where == "property":
+            doc = obj("Root", {rng.choice(WORDS): {"type": "string"}, "host": host})
+        elif where == "definition":
+            doc = {**obj("Root", {"host": {"$ref": "#/definitions/host"}, "again": {"type": "array", "items": {"$ref": "#/definitions/host"}}}),
+                   "definitions": {"host": host}}
+        elif where == "items":
+            doc = {"title": "Root", "type": "array", "items": host}
+        else:
+            doc = {"title": "Root", rng.choice(["anyOf", "oneOf", "allOf"]): [{"type": "null"}, host]}
+        fam["documents"] += 1
+        fam["host"][where] = fam["host"].get(where, 0) + 1
+        fam["host-type"][json.dumps(typ)] = fam["host-type"].get(json.dumps(typ), 0) + 1
+        docs.append(doc)
+    return docs
+
+
+def annotated_trivial_documents(rng, count, stats):
+    """Schemas without validation content at any level - `{}`, `true`, and compositions of nothing but those - carrying
+    annotations. They all denote "the" trivial element, the one object a parser may be tempted to keep a single copy of."""
+    docs = []
+    fam = stats.setdefault("annotated-trivial", {"documents": 0, "keywords": {}, "annotations": {}, "at": {}})
+
+    def trivial(depth):
+        k = rng.random()
+        if depth <= 0 or k < 0.4:
+            return rng.choice([{}, True])
+        kw = rng.choice(["allOf", "anyOf", "oneOf"])
+        fam["keywords"][kw] = fam["keywords"].get(kw, 0) + 1
+        s = {kw: [trivial(depth - 1) for _ in range(rng.randint(1, 2))]}
+        if rng.random() < 0.3:
+            kw2 = rng.choice([k2 for k2 in ("allOf", "anyOf", "oneOf") if k2 != kw])
+            s[kw2] = [trivial(depth - 1)]
+        return s
+
+    def annotated():
+        s = trivial(2)
+        if not isinstance(s, dict):
+            s = {}
+        if not s and rng.random() < 0.5:
+            s = {rng.choice(["allOf", "anyOf", "oneOf"]): [rng.choice([{}, True])]}
+        for ann, value in (("default", rng.choice([10, "n/a", None, False, [1, 2], {"k": 1}, 0.5])),
+                           ("title", rng.choice(["Threshold", "anything", "Any Value"])),
+                           ("description", rng.choice(["Whatever.", "Any value at all."]))):
+            if rng.random() < (0.75 if ann == "default" else 0.4):
+                s[ann] = value
+                fam["annotations"][ann] = fam["annotations"].get(ann, 0) + 1
+        return s
+
+    for _ in range(count):
+        at = rng.choice(["root", "property", "definition", "items"])
+        if at == "root":
+            doc = annotated()
+        elif at == "property":
+            doc = obj("Root", {w: annotated() for w in rng.sample(WORDS, rng.randint(1, 3))})
+        elif at == "definition":
+            doc = {**obj("Root", {"any": {"$ref": "#/definitions/any"}, "wrapped": {"allOf": [{"$ref": "#/definitions/any"}], "default": rng.choice([10, "x", None])}}),
+                   "definitions": {"any": annotated()}}
+        else:
+            doc = {"title": "Root", "type": "array", "items": annotated(), "default": []}
+        fam["documents"] += 1
+        fam["at"][at] = fam["at"].get(at, 0) + 1
+        docs.append(doc)
+    return docs
+
+
+def run_worker(order, seed, stats):
+    """One fresh interpreter process under PYTHONHASHSEED=seed generating the documents of `order`, in that order."""
+    env = dict(os.environ)
+    env["PYTHONHASHSEED"] = seed
+    env["PYTHONPATH"] = os.environ.get("STATHAM_REPO", "/repo")
+    proc = subprocess.run([sys.executable, WORKER], input=json.dumps(order), capture_output=True, text=True, env=env, timeout=1800, check=False)
+    if proc.returncode != 0:
+        stats["worker-failed"] = stats.get("worker-failed", 0) + 1
+        raise RuntimeError("c09 worker failed: " + proc.stderr[-500:])
+    stats["processes"] = stats.get("processes", 0) + 1
+    return json.loads(proc.stdout)
+
+
+def worker_order(paths, j):
+    rest = paths[3:]
+    k = (j * 7) % max(1, len(rest))
+    return paths[:3] + (rest[k:] + rest[:k] if j % 2 == 0 else list(reversed(rest[k:] + rest[:k])))
+
+
 def run_workers(paths, seeds, stats):
     outs = []
     for j, seed in enumerate(seeds):
         # every process meets the documents in another order (what was generated before must not matter either), the first
         # three staying first so that each process runs the console entry point on the same documents
-        rest = paths[3:]
-        k = (j * 7) % max(1, len(rest))
-        order = paths[:3] + (rest[k:] + rest[:k] if j % 2 == 0 else list(reversed(rest[k:] + rest[:k])))
-        env = dict(os.environ)
-        env["PYTHONHASHSEED"] = seed
-        env["PYTHONPATH"] = os.environ.get("STATHAM_REPO", "/repo")
-        proc = subprocess.run([sys.executable, WORKER], input=json.dumps(order), capture_output=True, text=True, env=env, timeout=1800, check=False)
-        if proc.returncode != 0:
-            stats["worker-failed"] = stats.get("worker-failed", 0) + 1
-            raise RuntimeError("c09 worker failed: " + proc.stderr[-500:])
-        outs.append(json.loads(proc.stdout))
-        stats["processes"] = stats.get("processes", 0) + 1
+        outs.append(run_worker(worker_order(paths, j), seed, stats))
     return outs
+
+
+def history_failure(path, field, what, j, fresh_rec, paths, seeds, files_of, stats):
+    """Process j produced for `path` something else than a fresh process under the same hash seed: cut the documents the
+    process generated before it down to the ones that have to come first."""
+    seed = seeds[j]
+    order = worker_order(paths, j)
+    prefix = order[:order.index(path)]
+    want = json.dumps(fresh_rec.get(field))
+
+    def differs(history):
+        return json.dumps(run_worker(history + [path], seed, stats)[path].get(field)) != want
+
+    history = prefix
+    if prefix and differs(prefix):
+        lo, hi = 0, len(prefix)              # invariant: prefix[:hi] makes the difference; prefix[:lo] does not (lo = 0: the fresh process)
+        while hi - lo > 1:
+            mid = (lo + hi) // 2
+            if differs(prefix[:mid]):
+                hi = mid
+            else:
+                lo = mid
+        history = prefix[:hi]
+        if len(history) > 1 and differs(history[-1:]):
+            history = history[-1:]
+    stats["history-dependent"] = stats.get("history-dependent", 0) + 1
+    return {"case": {"files": files_of[path], "history": [files_of[h] for h in history], "hash_seed": seed, "field": field},
+            "what": f"{what} of a document depends on what the process generated before it: a fresh process (PYTHONHASHSEED {seed}) "
+                    f"and one that first generated {len(history)} other document(s) disagree", "finding": None}
+
+
+def explain_difference(path, field, what, pair, paths, seeds, outs, files_of, stats):
+    """Two processes disagree on `path`. Fresh processes under the same two hash seeds tell whether the hash seed alone does it."""
+    a, b = pair
+    by_seed = {"case": {"files": files_of[path], "hash_seeds": [seeds[a], seeds[b]], "field": field},
+               "what": f"{what} differs between processes (PYTHONHASHSEED {seeds[a]} vs {seeds[b]})", "finding": None}
+    if field == "cli_file" or "random" in (seeds[a], seeds[b]):
+        return by_seed
+    alone = {j: run_worker([path], seeds[j], stats)[path] for j in (a, b)}
+    if json.dumps(alone[a].get(field)) != json.dumps(alone[b].get(field)):
+        stats["hash-seed-dependent"] = stats.get("hash-seed-dependent", 0) + 1
+        return by_seed
+    for j in (b, a):
+        if json.dumps(outs[j][path].get(field)) != json.dumps(alone[j].get(field)):
+            return history_failure(path, field, what, j, alone[j], paths, seeds, files_of, stats)
+    return by_seed
 
 
 def run(ctx, scale=1.0):
     rng = random.Random(ctx["seed"] + 9)
     out = Outcome()
     out.rule = ("documents: C02's reference documents + order-sensitive families (2-3 composition keywords with distinct equally-titled object branches, "
-                "2-6 undeclared required names, 4-10 properties over equally-titled definitions, pattern/dependency objects); every document is generated "
-                "in 5 (quick) / 16 (thorough) separate interpreter processes with different PYTHONHASHSEED; a case is one document across all processes; "
+                "2-6 undeclared required names, 4-10 properties over equally-titled definitions, pattern/dependency objects; one element carrying 2-6 of the 13 "
+                "sub-schema keywords, each over distinct objects of one title, at the root / under a property / definition / items / composition branch, "
+                "typed object, array, list or untyped; annotated schemas without validation content: {} / true / 1-2 level compositions of those with "
+                "default, title, description, at the root / property / definition / items); every document is generated "
+                "in 5 (quick) / 16 (thorough) separate interpreter processes with different PYTHONHASHSEED, each meeting the documents in another order, "
+                "and 8 (quick) / 40 (thorough) sampled documents additionally alone in a fresh process; a case is one document across all processes; "
                 "non-trivial = at least two classes; distinct by SHA-256")
     stats = {}
     tmp = tempfile.mkdtemp(prefix="statham-c09-")
@@ -128,9 +304,11 @@ def run(ctx, scale=1.0):
         g = Gen(rng)
         docs = []
         n = int(N_DOCS[ctx["tier"]] * scale)
-        reps = max(1, n // 70)
+        reps = max(1, n // 100)
         for _ in range(reps):
             docs += [{"doc.json": d} for d in order_documents(rng)]
+            docs += [{"doc.json": d} for d in sibling_keyword_documents(rng, 12, stats)]
+            docs += [{"doc.json": d} for d in annotated_trivial_documents(rng, 10, stats)]
         while len(docs) < n:
             docs.append(g.document())
         paths = []
@@ -141,7 +319,15 @@ def run(ctx, scale=1.0):
                 with open(os.path.join(sub, name), "w", encoding="utf8") as fh:
                     json.dump(doc, fh)
             paths.append(os.path.join(sub, "doc.json"))
-        outs = run_workers(paths, SEEDS[ctx["tier"]], stats)
+        seeds = SEEDS[ctx["tier"]]
+        outs = run_workers(paths, seeds, stats)
+        # a sample of documents generated alone: what a process that has done nothing else produces (the first three documents
+        # come first in every process, so without this nothing would show what they do to the documents after them)
+        fresh_paths = rng.sample(paths[3:], min(N_FRESH[ctx["tier"]], len(paths) - 3)) if len(paths) > 3 else []
+        fresh = {path: run_worker([path], seeds[0], stats)[path] for path in fresh_paths}
+        stats["fresh-process-baselines"] = len(fresh)
+        files_of = dict(zip(paths, docs))
+        explained = 0
         for files, path in zip(docs, paths):
             recs = [o[path] for o in outs]
             case = {"files": files}
@@ -149,13 +335,25 @@ def run(ctx, scale=1.0):
             out.note_case(case, isinstance(names, list) and len(names) >= 2)
             if isinstance(recs[0].get("python"), str) and recs[0]["python"].startswith("exc:"):
                 stats["refused"] = stats.get("refused", 0) + 1
-            for field, what in (("python", "generated module text"), ("json", "JSON serialization"), ("names", "class names"),
-                                ("cli_file", "file written by the console entry point")):
+            if isinstance(names, list) and len({n.rsplit("_", 1)[0] for n in names if n.rsplit("_", 1)[-1].isdigit()}) > 0:
+                stats["documents-with-numbered-classes"] = stats.get("documents-with-numbered-classes", 0) + 1
+            for field, what in FIELDS + (("cli_file", "file written by the console entry point"),):
                 vals = [json.dumps(r.get(field)) for r in recs]
                 if len(set(vals)) > 1:
                     j = next(i for i, v in enumerate(vals) if v != vals[0])
-                    out.failures.append({"case": {**case, "hash_seeds": [SEEDS[ctx["tier"]][0], SEEDS[ctx["tier"]][j]], "field": field},
-                                         "what": f"{what} differs between processes (PYTHONHASHSEED {SEEDS[ctx['tier']][0]} vs {SEEDS[ctx['tier']][j]})", "finding": None})
+                    if explained < 3:
+                        # which of the two is it: the hash seed, or what the process had generated before?
+                        explained += 1
+                        out.failures.append(explain_difference(path, field, what, (0, j), paths, seeds, outs, files_of, stats))
+                    else:
+                        stats["further-differing-documents"] = stats.get("further-differing-documents", 0) + 1
+                    break
+                if path in fresh and field != "cli_file" and json.dumps(fresh[path].get(field)) != vals[0]:
+                    if explained < 3:
+                        explained += 1
+                        out.failures.append(history_failure(path, field, what, 0, fresh[path], paths, seeds, files_of, stats))
+                    else:
+                        stats["further-differing-documents"] = stats.get("further-differing-documents", 0) + 1
                     break
             else:
                 if recs[0].get("python") != recs[0].get("python2") and not str(recs[0].get("python")).startswith("exc:"):
@@ -196,16 +394,32 @@ def search(ctx, reason):
     return found.failures[0] if found.failures else None
 
 
+def _write_case_files(tmp, files):
+    os.makedirs(tmp)
+    for name, doc in files.items():
+        with open(os.path.join(tmp, name), "w", encoding="utf8") as fh:
+            json.dump(doc, fh)
+    return os.path.join(tmp, "doc.json")
+
+
 def _case_fails(case):
     tmp = tempfile.mkdtemp(prefix="statham-c09-")
     try:
-        for name, doc in case["files"].items():
-            with open(os.path.join(tmp, name), "w", encoding="utf8") as fh:
-                json.dump(doc, fh)
-        path = os.path.join(tmp, "doc.json")
+        path = _write_case_files(os.path.join(tmp, "doc"), case["files"])
+        if case.get("history"):
+            # the document alone in a fresh process vs after the recorded history, under several hash seeds
+            before = [_write_case_files(os.path.join(tmp, f"h{i}"), files) for i, files in enumerate(case["history"])]
+            for seed in dict.fromkeys([str(case.get("hash_seed", "0")), "0", "1", "2"]):
+                if seed == "random":
+                    continue
+                alone = run_worker([path], seed, {})[path]
+                after = run_worker(before + [path], seed, {})[path]
+                if any(json.dumps(alone.get(f)) != json.dumps(after.get(f)) for f, _ in FIELDS):
+                    return True
+            return False
         outs = run_workers([path], [str(i) for i in range(8)], {})
         recs = [o[path] for o in outs]
-        return any(len({json.dumps(r.get(f)) for r in recs}) > 1 for f in ("python", "json", "names"))
+        return any(len({json.dumps(r.get(f)) for r in recs}) > 1 for f, _ in FIELDS)
     finally:
         shutil.rmtree(tmp, ignore_errors=True)
 
